@@ -2540,6 +2540,8 @@ class Gen:
                 c['pl'], c['ple'] = prev['pl'], prev['ple']
             if noise == 'keep':
                 c['noise'], c['ntype'] = prev['noise'], prev.get('ntype')
+            if mode == 'args-only' or (mode == 'mixed' and rng.chance(0.5)):
+                c['pe'], c['petype'] = prev['pe'], prev.get('petype')      # the scalar arguments stay as well
             sol = ['sync', 'precoders', 'filters', 'untouched', 'P'][(i + rng.below(5)) % 5]
             if mode == 'args-only' and sol in ('untouched', 'P'):
                 sol = rng.choice(['sync', 'precoders', 'filters'])
@@ -3290,7 +3292,7 @@ def check(ctx):
                             ['R15:%s:%s:reports-differ-by>=30-tolerances' % k for k in R15_KINDS
                              if k[1] in ('tiny', 'rel1e-6')] + \
                             ['R16:buffer-refilled-in-place:' + r for r in R16_ROLES] + \
-                            ['R15:F:one-power-for-all-users']
+                            ['R15:F:one-power-for-all-users', 'R15:P:one-power-for-all-users']
     cases = corpus_cases() + gen_cases(ctx, 300 if quick else 3000) + gen_rcases(ctx, 40 if quick else 400)
     gb = Gen(ctx.rng.fork('bigk'), ctx.tier)
     bigk = [gb.bigk_case(ext=bool((i + ctx.seed) % 2)) for i in range(1 if quick else 6)]
@@ -3304,15 +3306,16 @@ def check(ctx):
         if i % 3 == 2:
             sess['buffers'] = True
     gs = Gen(ctx.rng.fork('r15r16'), ctx.tier)
-    sessions += [gs.buffer_session(ext=bool(i % 2)) for i in range(12 if quick else 150)]
+    sessions += [gs.buffer_session(ext=bool(i % 2)) for i in range(12 if quick else 80)]
     # R15: one object taken through close-but-distinct values of ONE parameter
-    for rep in range(1 if quick else 12):
+    for rep in range(1 if quick else 6):
         for param, closeness in R15_KINDS:
-            # (precoders: also with one power for all users, i.e. set_precoders(F=…) without a power vector)
-            for scalar_P in ((False, True) if param == 'F' else (bool(rep % 2),)):
+            # (precoders, powers: also with one power for all users — the scalar branch of the P setter, and
+            # set_precoders(F=…) without a power vector)
+            for scalar_P in ((False, True) if param in ('F', 'P') else (bool(rep % 2),)):
                 sessions.append(gs.r15_session(param, closeness, n_steps=3 if quick else gs.rng.randint(3, 4),
                                                scalar_P=scalar_P))
-    roles = [gs.roles_case() for _ in range(12 if quick else 240)]
+    roles = [gs.roles_case() for _ in range(12 if quick else 120)]
     try:
         correspondence(ctx, cases)
         corr_sessions(ctx, sessions)
